@@ -404,6 +404,22 @@ S_KEYS = ["a", "b", "c", "d", "", "__proto__", "0", "1", "2", "3", "10", "7", "0
 S_STRS = ["", "a", "hello", "\"", "\\", "/", "\b\f\n\r\t", "\u0000\u0001\u001f", "\u007f\u0080\u00e9", "\u2028\u2029", "\ud800", "\udc00",
           "\ud800\ud800", "\udc00\ud800", "a\ud83d", "\ude00b", "\U0001f600", "\ud83d\ude00\ud83d", "\uffff\ufffe\ufeff", "x" * 40]
 
+def surrogate_patterns(maxlen=4):
+    """every sequence of length 1..maxlen over {high surrogate, low surrogate, 'a'}: H H L, H L L, L H L, H H, L L,
+    H at end, L at start, H L H L, … (adjacency of lone surrogates and pairs)"""
+    import itertools
+    out = []
+    for n in range(1, maxlen + 1):
+        for combo in itertools.product((0xD83D, 0xDE00, 0x61), repeat=n):
+            out.append("".join(chr(c) for c in combo))
+    return out
+
+SURR_KEY_PATTERNS = ["\ud83d\ud83d\ude00", "\ud83d\ude00\ude00", "\ude00\ud83d\ude00", "\ud83d\ud83d", "\ude00\ude00", "a\ud83d", "\ude00a",
+                     "\ud83d\ude00\ud83d\ude00", "\ud800\udbff\udc00\udfff", "\udbff\udbff\udfff\udfff"]
+
+S_STRS += SURR_KEY_PATTERNS
+S_KEYS += SURR_KEY_PATTERNS
+
 def gen_num_lex(r):
     k = r.random()
     if k < 0.4: return str(r.choice([0, 1, -1, 2, 10, 42, -7, 100, 255, 65536, 2 ** 31, -2 ** 31, 2 ** 32, 2 ** 53 - 1, -(2 ** 53 - 1), 2 ** 53, r.randrange(-10 ** 6, 10 ** 6), r.randrange(-2 ** 53, 2 ** 53)]))
@@ -459,7 +475,8 @@ def js_str(s):
         else: out.append("\\u%04x" % u)
     return "\"" + "".join(out) + "\""
 
-J_KEYS = ["a", "b", "c", "0", "1", "2", "10", "__proto__", "", "x y", "\u00e9", "\ud800", "toJSON", "4294967295", "length"]
+J_KEYS = ["a", "b", "c", "0", "1", "2", "10", "__proto__", "", "x y", "\u00e9", "\ud800", "toJSON", "4294967295", "length",
+          "\ud83d\ud83d\ude00", "\ude00\ud83d\ude00", "\ud83d\ude00\ude00"]
 
 class JGen:
     def __init__(self, r):
@@ -474,7 +491,7 @@ class JGen:
     def prim(self):
         r = self.r
         return r.choice(["1", "0", "-0", "-1", "1.5", "1e21", "1e-7", "NaN", "Infinity", "-Infinity", "9007199254740993", "0.1", "255", "null", "true", "false",
-                         "undefined", "\"\"", "\"s\"", js_str(r.choice(S_STRS)), "10n", "-0n", "Symbol(\"s\")", "Symbol.iterator", "function(){}", "(()=>1)",
+                         "undefined", "\"\"", "\"s\"", js_str(r.choice(S_STRS)), js_str(r.choice(SURR_KEY_PATTERNS)), "10n", "-0n", "Symbol(\"s\")", "Symbol.iterator", "function(){}", "(()=>1)",
                          "class{}", "Math.max"])
     def boxed(self):
         r = self.r
@@ -902,6 +919,9 @@ def main(ctx):
     for toks in (["a2", "a0", "a1", "n0031"], ["o2", "s0061", "o0", "s0062", "a1", "o0"], ["a3", "o0", "a0", "o1", "s0061", "a0"]):
         for g in gaps_all: S.append("S " + g + " " + " ".join(toks))
 
+    # surrogate adjacency patterns as string values and as object keys (quote through the whole serialiser + MarshalJSON)
+    for pat in surrogate_patterns(3) + SURR_KEY_PATTERNS:
+        S.append("S n0 o2 s%s s%s s0061 a1 s%s" % (hx(pat), hx(pat), hx(pat)))
     # allow-lists on plain data (model: stringifyPL = stringify ∘ project)
     SL = [l for l in corpus if l.startswith("SL ")]
     for i in range(100 if quick else 1500):
@@ -936,8 +956,11 @@ def main(ctx):
         D = r.sample(rv_keys, r.choice([0, 0, 1, 2, 3]))
         Z = r.sample(rv_keys, r.choice([0, 0, 1, 2]))
         RV.append("RV " + hx(text) + " D " + " ".join("s" + hx(k) for k in D) + " Z " + " ".join("s" + hx(k) for k in Z))
-    Q = []
+    Q = [l for l in corpus if l.startswith("Q ")]
     for s in S_STRS + KEY_POOL: Q.append("Q " + hx(s))
+    for s in surrogate_patterns(4 if quick else 5): Q.append("Q " + hx(s))           # exhaustive adjacency patterns
+    for _ in range(200 if quick else 3000):                                            # random surrogate-dense strings
+        Q.append("Q " + hxu([r.choice([r.randrange(0xD800, 0xDC00), r.randrange(0xDC00, 0xE000), r.randrange(0xD800, 0xE000), 0x61, 0xD83D, 0xDE00]) for _ in range(r.choice([2, 3, 4, 5, 8]))]))
     for _ in range(300 if quick else 5000):
         n = r.choice([1, 2, 3, 6])
         Q.append("Q " + hxu([r.choice([r.randrange(0, 0x30), r.randrange(0, 0x10000), r.randrange(0xD800, 0xE000), 0x22, 0x5c]) for _ in range(n)]))
